@@ -46,6 +46,24 @@ pub struct TypeSpec {
     /// C19(b): `allow(unused)` in the attribute (only meaningful for constructors nobody needs)
     #[serde(default)]
     pub allow_unused: bool,
+    /// the alternative constructor (variant 1) has the opposite fallibility of variant 0
+    /// (it returns `Result<T, E0>` when variant 0 returns `T`, and the other way round)
+    #[serde(default)]
+    pub v1_flip: bool,
+}
+
+impl TypeSpec {
+    /// Error type returned by constructor variant `v`, if it is fallible.
+    pub fn fallible_of(&self, v: u8) -> Option<usize> {
+        if v == 1 && self.v1_flip {
+            if self.fallible.is_some() { None } else { Some(0) }
+        } else {
+            self.fallible
+        }
+    }
+    pub fn any_variant_fallible(&self) -> bool {
+        (0..self.variants.max(1)).any(|v| self.fallible_of(v).is_some())
+    }
 }
 
 #[derive(Clone, Debug, PartialEq, Serialize, Deserialize)]
